@@ -12,8 +12,7 @@ Section ReactExt.
   Variable visible : call -> bool.
 
   Notation react_spec := (react_spec tn rd rd_nonempty modifier visible).
-  Notation agent_run := (agent_run tn rd rd_nonempty modifier visible).
-  Notation rd_id_of := (rd_id_of rd rd_nonempty).
+  Notation rd_index_of := (rd_index_of rd rd_nonempty).
 
   (* ---- strict alternation ---- *)
 
@@ -35,10 +34,10 @@ Section ReactExt.
       + simpl in H. inversion H; subst cs. split; auto. exists content, chunks. reflexivity.
       + simpl in H. destruct (tn calls) as [results| |]; try (destruct k'; discriminate).
         rewrite rounds_tr_emit in H.
-        destruct (String.eqb (rd_id_of calls) "").
+        destruct (rd_index_of calls) as [ix|]; revgoals.
         * simpl. eapply IH; eauto.
         * destruct b2; [destruct k'; discriminate|].
-          destruct (find_tcid _ results); destruct k'; discriminate.
+          destruct (nth_error results ix); destruct k'; discriminate.
   Qed.
 
   (* a tool round only after a model call, a model call only after the previous round:
@@ -58,10 +57,10 @@ Section ReactExt.
       rewrite inputs_tr_input, rounds_tr_input, inputs_tr_emit, rounds_tr_emit, inputs_tr_round, rounds_tr_round.
       destruct (tn calls) as [results| |]; try (simpl; lia).
       rewrite inputs_tr_emit, rounds_tr_emit.
-      destruct (String.eqb (rd_id_of calls) "").
+      destruct (rd_index_of calls) as [ix|]; revgoals.
       + specialize (IH b2 (hist ++ assistant content calls :: map tool_msg results)%list).
         cbv zeta in IH. simpl. lia.
-      + destruct b2; [simpl; lia|]. destruct (find_tcid _ results); simpl; lia.
+      + destruct b2; [simpl; lia|]. destruct (nth_error results ix); simpl; lia.
   Qed.
 
   (* ---- the shape of the history ---- *)
@@ -154,7 +153,7 @@ Section ReactExt.
         assert (Hl : List.length results = List.length calls).
         { apply Hin in Et. apply (f_equal (@List.length string)) in Et. rewrite !map_length in Et. exact Et. }
         rewrite emitted_all by auto.
-        destruct (String.eqb (rd_id_of calls) "").
+        destruct (rd_index_of calls) as [ix|]; revgoals.
         * destruct (IH _ _ _ _ H) as [n Hn].
           exists (S (List.length results) + n). rewrite Hn. f_equal.
           rewrite <- app_assoc. f_equal. simpl. f_equal.
@@ -162,7 +161,7 @@ Section ReactExt.
           replace (List.length results + n - List.length results) with n by lia.
           rewrite (firstn_all2 (map tool_msg results)) by (rewrite map_length; lia). reflexivity.
         * destruct b2; [destruct k'; discriminate|].
-          destruct (find_tcid _ results); destruct k'; discriminate.
+          destruct (nth_error results ix); destruct k'; discriminate.
   Qed.
 
   (* an answer that is a model reply is the last message the future hands out *)
@@ -183,11 +182,11 @@ Section ReactExt.
         rewrite emits_tr_input, emits_tr_emit, emits_tr_round.
         destruct (tn calls) as [results| |]; try discriminate.
         rewrite out_tr_emit in H. rewrite emits_tr_emit.
-        destruct (String.eqb (rd_id_of calls) "").
+        destruct (rd_index_of calls) as [ix|]; revgoals.
         * destruct (IH _ _ _ H Hr) as [pre Hp]. rewrite Hp.
           exists ([assistant content calls] ++ emitted_results visible calls results ++ pre)%list.
           rewrite <- !app_assoc. reflexivity.
-        * destruct b2; [discriminate|]. destruct (find_tcid _ results) as [r|]; [|discriminate].
+        * destruct b2; [discriminate|]. destruct (nth_error results ix) as [r|]; [|discriminate].
           simpl in H. inversion H; subst m. discriminate.
   Qed.
 End ReactExt.
@@ -195,33 +194,35 @@ End ReactExt.
 (* ---- the same statements for the graph-level model ---------------------------------------- *)
 Section AgentExt.
   Variable tn : list call -> res (list tmsg).
+  Variable tns : list call -> res (list string * list emitted).
   Variable rd : string -> bool.
   Variable rd_nonempty : bool.
   Variable modifier : list msg -> list msg.
   Variable visible : call -> bool.
-  Notation agent_run := (agent_run tn rd rd_nonempty modifier visible).
+  Notation agent_run := (agent_run tn tns rd rd_nonempty modifier visible).
+  Notation reply_exact := (reply_exact tn tns rd rd_nonempty).
 
   Theorem agent_kth_round : forall checker md script max_steps input k cs,
-    Forall (step_exact checker md) script ->
+    Forall (reply_exact checker md) script ->
     nth_error (t_rounds (agent_run checker md max_steps script input)) k = Some cs ->
     cs <> [] /\ exists content chunks, nth_error script k = Some (SMsg content cs chunks).
   Proof. intros until cs. intros HF. rewrite agent_refines_spec by auto. apply kth_round. Qed.
 
   Theorem agent_alternation : forall checker md script max_steps input,
-    Forall (step_exact checker md) script ->
+    Forall (reply_exact checker md) script ->
     let t := agent_run checker md max_steps script input in
     List.length (t_rounds t) <= List.length (t_inputs t) <= S (List.length (t_rounds t)).
   Proof. intros. subst t. rewrite agent_refines_spec by auto. apply alternation. Qed.
 
   Theorem agent_emits_are_history : forall checker md script max_steps input k h,
-    Forall (step_exact checker md) script ->
+    Forall (reply_exact checker md) script ->
     (forall c, visible c = true) -> tn_in_order tn ->
     nth_error (t_inputs (agent_run checker md max_steps script input)) k = Some h ->
     exists n, h = modifier (input ++ firstn n (t_emits (agent_run checker md max_steps script input))).
   Proof. intros until h. intros HF Hv Hin. rewrite agent_refines_spec by auto. apply emits_are_history; auto. Qed.
 
   Theorem agent_emits_end_with_plain_answer : forall checker md script max_steps input m,
-    Forall (step_exact checker md) script ->
+    Forall (reply_exact checker md) script ->
     t_out (agent_run checker md max_steps script input) = Final m -> m_role m = RAssistant ->
     exists pre, t_emits (agent_run checker md max_steps script input) = (pre ++ [m])%list.
   Proof. intros until m. intros HF. rewrite agent_refines_spec by auto. apply emits_end_with_plain_answer. Qed.
@@ -262,6 +263,7 @@ Definition tool_calls_first (s : step) : Prop :=
 
 Section DefaultChecker.
   Variable tn : list call -> res (list tmsg).
+  Variable tns : list call -> res (list string * list emitted).
   Variable rd : string -> bool.
   Variable rd_nonempty : bool.
   Variable modifier : list msg -> list msg.
@@ -271,10 +273,11 @@ Section DefaultChecker.
   Theorem generate_stream_agree_default : forall script max_steps input,
     Forall chunking_valid script ->
     Forall tool_calls_first script ->
-    agent_run tn rd rd_nonempty modifier visible default_checker Stream max_steps script input
-    = agent_run tn rd rd_nonempty modifier visible default_checker Generate max_steps script input.
+    Forall (tools_stream_exact tn tns rd rd_nonempty) script ->
+    agent_run tn tns rd rd_nonempty modifier visible default_checker Stream max_steps script input
+    = agent_run tn tns rd rd_nonempty modifier visible default_checker Generate max_steps script input.
   Proof.
-    intros script max_steps input Hv Hf. apply generate_stream_agree_gen; auto.
+    intros script max_steps input Hv Hf Ht. apply generate_stream_agree_gen; auto.
     - apply default_checker_whole.
     - rewrite Forall_forall in *. intros s Hs. specialize (Hv s Hs). specialize (Hf s Hs).
       destruct s as [|content calls chunks]; simpl in *; auto.
